@@ -412,6 +412,10 @@ func awsNode(name, id string) *v1.Node {
 //
 //	already decremented); the next batch is judged against what the cloud holds now.
 //
+// mode 2: an earlier scan terminated the first instance, which a lifecycle hook keeps listed in
+//
+//	state Terminating:Wait; after a refresh another batch is removed.
+//
 // shape: [instances, nodes passed, mode]
 func VerifHarness_C19_history() {
 	I, K, mode := verifShape(0), verifShape(1), verifShape(2)
@@ -444,6 +448,16 @@ func VerifHarness_C19_history() {
 		if len(departed) > 0 {
 			verifReach("C19.membership-changed-at-equal-size")
 		}
+	case 2:
+		// an earlier scan removed the first instance; a termination hook keeps it listed as Terminating:Wait
+		w.AS.KeepTerminating = true
+		w.asg.Desired = int64(I)
+		if err0 := w.ng.DeleteNodes(awsNode("old", ids[0])); err0 == nil {
+			verifReach("C19.terminating-instance-still-listed")
+		}
+		verifAssert("C19.harness-refresh", w.cp.Refresh() == nil)
+		ng, _ := w.cp.GetNodeGroup("asg0")
+		w.ng = ng.(*NodeGroup)
 	case 1:
 		// an earlier batch of two whose second termination is rejected
 		w.asg.Desired = int64(I) + 2
@@ -467,6 +481,9 @@ func VerifHarness_C19_history() {
 	for k := 0; k < K; k++ {
 		ks := strconv.Itoa(k)
 		which := verifChoice("node"+ks, I+1) // I = not a member
+		if mode == 2 && which == 0 {
+			verifAssume(false) // the instance already being terminated is not asked for again
+		}
 		id := "i-foreign" + ks
 		if which < I {
 			id = ids[which]
@@ -523,20 +540,25 @@ func VerifHarness_C19_history() {
 // Each attempt fails in a way the harness picks (never ready / k-th attach call fails); escalator
 // gives up (log.Fatal) after its documented number of consecutive failures -- also then every
 // acquired instance must have been attached or handed back first.
-// shape: [instances asked per attempt, attempts, partial fill (0/1)]
+// shape: [instances asked per attempt, attempts, partial fill or over-delivery (0/1), ASG maximum leaves exactly the asked headroom (0/1)]
 func VerifHarness_C18_history() {
 	m, A, partial := verifShape(0), verifShape(1), verifShape(2)
 	batches := (m + batchSize - 1) / batchSize
 	cfg := cloudprovider.AWSNodeGroupConfig{LaunchTemplateID: "lt-1", LaunchTemplateVersion: "1", FleetInstanceReadyTimeout: 1500 * time.Millisecond}
-	w := newAWSWorld(0, int64(m*A)+10, 2, 0, cfg)
+	maxSize := int64(m*A) + 10
+	if verifShape(3) == 1 {
+		maxSize = 2 + int64(m) // no headroom beyond what is asked: a fleet that over-delivers cannot be attached in full
+	}
+	w := newAWSWorld(0, maxSize, 2, 0, cfg)
 	w.J.TypedErrors = true // a failing call may be a plain error, AWS throttling or an AWS ValidationError
 	exited := false
+	consecutive := 0 // failed scale-ups since the last one that went through
 	for a := 1; a <= A && !exited; a++ {
 		as := "a" + strconv.Itoa(a) + "."
 		delivered := m
 		if partial == 1 {
 			// the cloud hands over fewer instances than asked for, together with an error entry
-			delivered = int(verifInt(as+"delivered", 1, int64(m)))
+			delivered = int(verifInt(as+"delivered", 1, int64(m)+2)) // ... or a few more
 			w.EC2.FleetSize = delivered
 			if delivered < m {
 				w.EC2.FleetErrors = 1
@@ -544,7 +566,8 @@ func VerifHarness_C18_history() {
 				w.EC2.FleetErrors = 0
 			}
 		}
-		failure := verifChoice(as+"failure", 3) // 0 never ready, 1 k-th attach fails, 2 nothing fails
+		w.EC2.FleetSets = 1 + verifChoice(as+"fleetEntries", 2) // the fleet answer lists its instances in one or two entries (same instance type)
+		failure := verifChoice(as+"failure", 3)                 // 0 never ready, 1 k-th attach fails, 2 nothing fails
 		w.EC2.ReadyAfter, w.AS.AttachFailAt = 1, 0
 		w.EC2.polls = 0
 		switch failure {
@@ -559,10 +582,15 @@ func VerifHarness_C18_history() {
 		fatal := verifCatchFatal(func() { err = w.ng.IncreaseSize(int64(m)) })
 		att, term := w.attachAlgebra("C18", mark)
 		verifAssert("C18.nothing-leaked", att+term == len(w.EC2.Fleet))
+		if err != nil || fatal {
+			consecutive++
+		} else {
+			consecutive = 0
+		}
 		if fatal {
 			exited = true
 			verifReach("C18.gave-up-after-consecutive-failures")
-			verifAssert("C18.gives-up-only-after-three-failures", a >= 3)
+			verifAssert("C18.gives-up-only-after-three-failures", consecutive >= 3)
 		} else if failure != 2 && att < len(w.EC2.Fleet) {
 			verifAssert("C18.failure-reported", err != nil)
 		}
